@@ -242,6 +242,74 @@ func init() {
 			alias := arrayAliasCases()
 			secs = append(secs, core.Section{Name: "array-results-across-blocks", Exhaustive: true, N: len(alias),
 				Run: func(c *core.Ctx, i int) { judgeScope(c, alias[i].prog, alias[i].data, "array-alias") }})
+			// the result of a built-in on a visible name, assigned to that name (or to another) inside a nested block: after the
+			// block the enclosing block sees the value it had, whatever the built-in does with its receiver
+			type bcase struct {
+				val  model.Expr
+				name string
+				args []model.Expr
+			}
+			negZero := model.Binary{Op: "*", L: model.Lit{V: model.Float(0)}, R: model.Unary{Op: "-", X: model.Lit{V: model.Float(1.5)}}}
+			arr := literalOf(model.Arr(model.Int(3), model.Int(1), model.Int(2), model.Int(9), model.Int(5)))
+			one := model.Lit{V: model.Int(1)}
+			var bcases []bcase
+			for _, v := range []model.Expr{negZero, model.Unary{Op: "-", X: model.Lit{V: model.Float(0)}}, model.Lit{V: model.Float(0)}, model.Unary{Op: "-", X: model.Lit{V: model.Float(2.5)}}, model.Lit{V: model.Float(2.5)}} {
+				for _, n := range []string{"abs", "ceil", "floor", "round"} {
+					bcases = append(bcases, bcase{v, n, nil})
+				}
+			}
+			for _, v := range []model.Expr{model.Unary{Op: "-", X: model.Lit{V: model.Int(7)}}, model.Lit{V: model.Int(0)}} {
+				bcases = append(bcases, bcase{v, "abs", nil})
+			}
+			for _, n := range []string{"reverse", "slice", "append", "prepend"} {
+				args := []model.Expr{}
+				if n != "reverse" {
+					args = []model.Expr{one}
+				}
+				bcases = append(bcases, bcase{arr, n, args})
+			}
+			for _, n := range []string{"upper", "lower", "trim", "reverse", "capitalize"} {
+				bcases = append(bcases, bcase{model.StrLit{S: " aB é "}, n, nil})
+			}
+			secs = append(secs, core.Section{Name: "built-in-results-assigned-in-blocks", Exhaustive: true, N: len(bcases)*3 + 6,
+				Run: func(c *core.Ctx, i int) {
+					if i >= len(bcases)*3 {
+						// shuffle(): the result varies, what the enclosing block sees afterwards does not
+						k := i - len(bcases)*3
+						pre := []string{"{{ a = [1, 2, 3, 4, 5, 6, 7, 8, 9, 10, 11, 12, 13, 14, 15, 16, 17, 18, 19, 20] }}", ""}[k%2]
+						blockSrc := []string{"@if(true){{ a = a.shuffle() }}{{ a.len() }}@end", "@each(p in [1, 2, 3]){{ b = a.shuffle() }}{{ a = b.shuffle() }}@end", "@if(false)@elseif(true){{ a = a.slice(0).shuffle() }}{{ q = a.shuffle() }}@end"}[k/2]
+						src := pre + blockSrc + "|{{ a }}"
+						want := []string{"20", "", ""}[k/2] + "|1, 2, 3, 4, 5, 6, 7, 8, 9, 10, 11, 12, 13, 14, 15, 16, 17, 18, 19, 20"
+						data := map[string]any{}
+						if pre == "" {
+							xs := make([]int, 20)
+							for n := range xs {
+								xs[n] = n + 1
+							}
+							data["a"] = xs
+						}
+						c.Input(map[string]any{"source": src})
+						got := evalString(c, src, data)
+						c.Nontrivial(src)
+						if !got.Panicked && (got.Err != nil || got.Out != want) {
+							c.Violation("assigned-in-block:shuffle", fmt.Sprintf("%s gave %s, want %q", src, got.Describe(), want), map[string]any{"source": src})
+						}
+						return
+					}
+					bc := bcases[i/3]
+					call := model.Call{X: model.Var{Name: "z"}, Name: bc.name, Args: bc.args}
+					var inner []model.Stmt
+					switch i % 3 {
+					case 0: // re-assigned to the same name
+						inner = []model.Stmt{model.Assign{Name: "z", E: call}, model.Print{E: model.Var{Name: "z"}}}
+					case 1: // bound to another name, twice
+						inner = []model.Stmt{model.Assign{Name: "r", E: call}, model.Assign{Name: "r2", E: call}, model.Print{E: model.Var{Name: "r"}}}
+					default: // called in every pass of a loop
+						inner = []model.Stmt{model.Each{Var: "p", Arr: intArr(1, 2), Body: []model.Stmt{model.Assign{Name: "r", E: call}, model.Print{E: model.Var{Name: "r"}}}}}
+					}
+					prog := []model.Stmt{model.Assign{Name: "z", E: bc.val}, model.If{Conds: []model.Expr{model.Lit{V: model.Bool(true)}}, Bodies: [][]model.Stmt{inner}}, model.Text{S: "|"}, model.Print{E: model.Var{Name: "z"}}}
+					judgeScope(c, prog, nil, "assigned-in-block")
+				}})
 			// blocks inside one another to depth 15..300: each level assigns a name of its own and shadows nothing; the
 			// innermost block sees them all, after each block its name is gone and the outer ones are as they were
 			deepSizes := []int{15, 16, 17, 63, 64, 65, 127, 128, 129, 255, 256, 300}
